@@ -390,6 +390,83 @@ fn claim_deadline_probe(a: &mut Vec<i128>) -> String {
 	}
 }
 
+/// mpp_partial_claim_probe <expire_first_part 0/1>
+/// Four real nodes A -> {B, C} -> D; D receives a two-part MPP payment (5 000 000 msat per part, the part via B
+/// expires four blocks before the part via C) and sees PaymentClaimable. With expire_first_part the chain on D then
+/// advances to the advertised claim deadline, at which D fails the earlier part back and still holds the other.
+/// Then the user calls claim_funds. Output: number of parts D still held at that point, and the number of
+/// update_fulfill_htlc messages D releases (the preimage going out).
+fn mpp_partial_claim_probe(a: &mut Vec<i128>) -> String {
+	use lightning::events::Event;
+	use lightning::ln::channelmanager::PaymentId;
+	use lightning::ln::outbound_payment::{RecipientOnionFields, Retry};
+	const HTLC_FAIL_BACK_BUFFER: u32 = 39; // CLTV_CLAIM_BUFFER + LATENCY_GRACE_PERIOD_BLOCKS (pub(crate) in the library)
+	use lightning::ln::msgs::MessageSendEvent;
+	use lightning::routing::router::{PaymentParameters, RouteParameters, Router};
+	let expire = a[0] != 0;
+	let chanmon_cfgs = create_chanmon_cfgs(4);
+	let node_cfgs = create_node_cfgs(4, &chanmon_cfgs);
+	let mut legacy_cfg = test_legacy_channel_config();
+	legacy_cfg.channel_handshake_config.announced_channel_max_inbound_htlc_value_in_flight_percentage = 10;
+	let configs: [Option<lightning::util::config::UserConfig>; 4] = core::array::from_fn(|_| Some(legacy_cfg.clone()));
+	let node_chanmgrs = create_node_chanmgrs(4, &node_cfgs, &configs);
+	let nodes = create_network(4, &node_cfgs, &node_chanmgrs);
+	for n in nodes.iter() {
+		*n.connect_style.borrow_mut() = ConnectStyle::FullBlockViaListen;
+	}
+	let node_a_id = nodes[0].node.get_our_node_id();
+	let node_b_id = nodes[1].node.get_our_node_id();
+	let node_d_id = nodes[3].node.get_our_node_id();
+	create_announced_chan_between_nodes(&nodes, 0, 1);
+	create_announced_chan_between_nodes_with_value(&nodes, 0, 2, 1_000_000, 0);
+	create_announced_chan_between_nodes_with_value(&nodes, 1, 3, 1_000_000, 0);
+	create_announced_chan_between_nodes(&nodes, 2, 3);
+	let (payment_preimage, hash, payment_secret) = get_payment_preimage_hash(&nodes[3], None, None);
+	let payment_params = PaymentParameters::from_node_id(node_d_id, TEST_FINAL_CLTV)
+		.with_bolt11_features(nodes[1].node.bolt11_invoice_features())
+		.unwrap();
+	let amt_msat = 10_000_000;
+	let route_params = RouteParameters::from_payment_params_and_value(payment_params, amt_msat);
+	let inflight = nodes[0].node.compute_inflight_htlcs();
+	let mut route = nodes[0].router.find_route(&node_a_id, &route_params, None, inflight).unwrap();
+	route.paths.sort_by(|x, _| if x.hops[0].pubkey == node_b_id { core::cmp::Ordering::Less } else { core::cmp::Ordering::Greater });
+	route.paths[0].hops[1].cltv_expiry_delta = TEST_FINAL_CLTV + 8;
+	route.paths[1].hops[1].cltv_expiry_delta = TEST_FINAL_CLTV + 12;
+	let final_cltv = nodes[0].best_block_info().1 + TEST_FINAL_CLTV + 8 + 1;
+	nodes[0].router.expect_find_route(route_params.clone(), Ok(route.clone()));
+	let onion = RecipientOnionFields::secret_only(payment_secret, amt_msat);
+	nodes[0].node.send_payment(hash, onion, PaymentId(hash.0), route_params, Retry::Attempts(1)).unwrap();
+	check_added_monitors(&nodes[0], 2);
+	let mut send_msgs = nodes[0].node.get_and_clear_pending_msg_events();
+	send_msgs.sort_by(|x, _| {
+		let id = if let MessageSendEvent::UpdateHTLCs { node_id, .. } = x { node_id } else { panic!() };
+		if *id == node_b_id { core::cmp::Ordering::Less } else { core::cmp::Ordering::Greater }
+	});
+	let (msg_a, msg_b) = (send_msgs.remove(0), send_msgs.remove(0));
+	pass_along_path(&nodes[0], &[&nodes[1], &nodes[3]], amt_msat, hash, Some(payment_secret), msg_a, false, None);
+	let ev = pass_along_path(&nodes[0], &[&nodes[2], &nodes[3]], amt_msat, hash, Some(payment_secret), msg_b, true, None);
+	match ev.unwrap() {
+		Event::PaymentClaimable { .. } => {},
+		_ => return "error no PaymentClaimable".to_string(),
+	}
+	let mut held = 2;
+	if expire {
+		let blocks = final_cltv - HTLC_FAIL_BACK_BUFFER - nodes[3].best_block_info().1;
+		connect_blocks(&nodes[3], blocks);
+		nodes[3].node.process_pending_htlc_forwards();
+		let _ = nodes[3].node.get_and_clear_pending_events();
+		let fails = nodes[3].node.get_and_clear_pending_msg_events();
+		let n_fail: usize = fails.iter().map(|m| if let MessageSendEvent::UpdateHTLCs { updates, .. } = m { updates.update_fail_htlcs.len() } else { 0 }).sum();
+		held -= n_fail;
+		let _ = nodes[3].chain_monitor.added_monitors.lock().unwrap().split_off(0);
+	}
+	nodes[3].node.claim_funds(payment_preimage);
+	let msgs = nodes[3].node.get_and_clear_pending_msg_events();
+	let fulfills: usize = msgs.iter().map(|m| if let MessageSendEvent::UpdateHTLCs { updates, .. } = m { updates.update_fulfill_htlcs.len() } else { 0 }).sum();
+	core::mem::forget(nodes);
+	format!("{} {}", held, fulfills)
+}
+
 fn main() {
 	if std::env::var("ORACLE_DEBUG").is_err() { std::panic::set_hook(Box::new(|_| {})); }
 	let stdin = std::io::stdin();
@@ -413,6 +490,7 @@ fn main() {
 			"counterparty_claim_probe" => counterparty_claim_probe(&mut args),
 			"holder_claim_probe" => holder_claim_probe(&mut args),
 			"claim_deadline_probe" => claim_deadline_probe(&mut args),
+			"mpp_partial_claim_probe" => mpp_partial_claim_probe(&mut args),
 			_ => format!("error unknown function {}", name),
 		}));
 		match r {
